@@ -104,6 +104,11 @@ func backendProp(b backendSpec, meaning string) propFunc {
 			c.runColVec(r, "shape.colvec", inPkgs("hlsl", "ir"))
 			r.floor("shape.colvec", 5)
 		}
+		if b.Name == "glsl" || b.Name == "hlsl" {
+			r.Clauses = append(r.Clauses, "bit-scan polyfills (E33): where a string literal spells min(K, firstbitlow/findLSB(x)), K - firstbithigh/findMSB(x) or ((ctz(x)+1) % K) - 1, K is 32, 31 and 33 respectively (countTrailingZeros(0) = 32, countLeadingZeros = 31 - msb)")
+			c.runBitscanWidth(r, "bitscan.width", inPkgs(b.Name))
+			r.floor("bitscan.width", 2)
+		}
 		if b.Name == "glsl" || b.Name == "msl" {
 			r.Clauses = append(r.Clauses, depthLikeClause)
 			c.runDepthLike(r, "image.depthlike", inPkgs(b.Name))
